@@ -17,6 +17,8 @@ ASSUMPTIONS = ["vf/ref/script_ref.py push rules (minimal push for the length); o
                "a one-byte data item is a data push (no BIP62 minimal-number rule)"]
 OBLIGATIONS = {
     "history_sequences": "operation sequences (non-initial process states) explored",
+    "opcode_name_lookalike": "a data item whose hex spelling equals an opcode name (with or without OP_ prefix, any case)",
+    "long_program": "a program / witness stack of more than 900 items",
     "pushdata1": "a data item of 76..255 bytes", "pushdata2": "a data item of 256..65535 bytes", "pushdata4": "a data item >= 65536 bytes",
     "alias_opcode": "an opcode name that shares its byte with another name",
     "empty_witness_stack": "an empty witness stack with trailing data", "witness_item_ge_253": "a witness item >= 253 bytes",
@@ -58,17 +60,20 @@ def chk_prog(case):
         if kind == "op":
             args.append(v)
             ref_items.append(("op", ops[v]))
+        elif kind == "hex":
+            args.append(v)
+            ref_items.append(("data", bytes.fromhex(v)))
         else:
             d = data(seed, v)
             args.append(d.hex())
             ref_items.append(("data", d))
     exp = SR.assemble(ref_items)
     got = call(bs.script, args)
-    desc = "[" + ", ".join(v if k == "op" else f"data{v}" for k, v in case["prog"]) + "]"
+    desc = "[" + ", ".join(v if k == "op" else (f"0x{v}" if k == "hex" else f"data{v}") for k, v in case["prog"][:6]) + (", ..%d items" % len(case["prog"]) if len(case["prog"]) > 6 else "") + "]"
     if got[0] != "ok":
         return [("C13/assemble/raised", f"script({desc}) raised {got[1]}")]
     if got[1] != exp:
-        big = max([v for k, v in case["prog"] if k == "data"] + [0])
+        big = max([v for k, v in case["prog"] if k == "data"] + [len(v) // 2 for k, v in case["prog"] if k == "hex"] + [0])
         cls = "direct" if big <= 75 else "pushdata1" if big <= 255 else "pushdata2" if big <= 65535 else "pushdata4"
         return [(f"C13/assemble/bytes/{cls}", f"script({desc}) = {got[1][:8].hex()}.. ({len(got[1])}B), expected {exp[:8].hex()}.. ({len(exp)}B)")]
     dec = call(bs.decode_script, exp)
@@ -213,7 +218,9 @@ WLENS = [0, 1, 75, 76, 252, 253, 255, 256, 65535, 65536]
 
 
 def jobs(tier, seed):
-    js = [{"name": "ops", "part": "ops"}, {"name": "seq3", "part": "seq3", "weight": 3}]
+    js = [{"name": "ops", "part": "ops"}, {"name": "seq3", "part": "seq3", "weight": 3}, {"name": "long", "part": "long", "weight": 3}]
+    for sh in range(8):
+        js.append({"name": f"items12/{sh}", "part": "items12", "shard": [sh, 8], "weight": 5})
     for sh in range(8):
         js.append({"name": f"lens/{sh}", "part": "lens", "shard": [sh, 8], "weight": 4})
     for sh in range(8):
@@ -259,6 +266,48 @@ def run_job(job):
                     acc.ob("pushdata1" if n <= 255 else "pushdata2" if n <= 65535 else "pushdata4")
                 acc.check("prog", {"seed": seed, "prog": p}, chk_prog)
         acc.sample({"data_lengths": f"1..{top} + 65535,65536,70000", "shard": job["shard"]})
+    elif part == "items12":
+        # EVERY data item of 1 and 2 bytes (a data item is written as a hex string: strings that also read as something
+        # else - an opcode name without its prefix, a decimal number - must still be pushed as data)
+        sh, nsh = job["shard"]
+        for v in range(256):
+            if v % nsh == sh:
+                acc.evaluations += 1
+                acc.check("prog", {"seed": seed, "prog": [["hex", f"{v:02x}"]]}, chk_prog)
+                acc.evaluations += 1
+                acc.check("prog", {"seed": seed, "prog": [["hex", f"{v:02X}"]]}, chk_prog)
+        for v in range(65536):
+            if v % nsh == sh:
+                acc.evaluations += 1
+                acc.nontrivial += 1
+                acc.check("prog", {"seed": seed, "prog": [["hex", f"{v:04x}"]]}, chk_prog)
+        names = sorted(ops)
+        for n in names:
+            for cand in (n[3:], n[3:].lower(), n.lower(), n[3:] + "00", "00" + n[3:]):
+                try:
+                    if len(cand) % 2 == 0 and cand and bytes.fromhex(cand) is not None and not cand.startswith("OP_"):
+                        acc.evaluations += 1
+                        acc.nontrivial += 1
+                        acc.ob("opcode_name_lookalike")
+                        acc.check("prog", {"seed": seed, "prog": [["hex", cand]]}, chk_prog)
+                except ValueError:
+                    pass
+        acc.sample({"data_items": "all 1- and 2-byte items", "shard": job["shard"]})
+    elif part == "long":
+        # long structures: thousands of items (recursion limits, quadratic slicing)
+        for n in (950, 1050, 1500, 5000):
+            for pat in ([["data", 4], ["op", "OP_DROP"]], [["op", "OP_DUP"]], [["data", 1]], [["data", 76], ["op", "OP_0"]]):
+                prog = (pat * n)[:n]
+                acc.evaluations += 1
+                acc.nontrivial += 1
+                acc.ob("long_program")
+                acc.check("prog", {"seed": seed, "prog": prog}, chk_prog)
+        for n in (1100, 3000):
+            acc.evaluations += 1
+            acc.nontrivial += 1
+            acc.ob("long_program")
+            acc.check("witness", {"seed": seed, "lens": [1 + (j % 3) for j in range(n)], "tail": "00"}, chk_witness)
+        acc.sample({"long_programs": [950, 1050, 1500, 5000]})
     elif part == "seq3":
         alpha = [["op", "OP_DUP"], ["op", "OP_0"], ["op", "OP_16"], ["op", "OP_CHECKSIG"], ["data", 1], ["data", 75], ["data", 76],
                  ["data", 255], ["data", 256]]
